@@ -181,6 +181,41 @@ func (c *vfCodec) via(a *vfAddrAST) string {
 	return strings.Join(ents, c.pick(",", ", "))
 }
 
+// a decoded Via line whose top entry is stamped the way Message.SetReceived does it (received, and rport when present):
+// every other entry and parameter must be re-encoded as received
+func (c *vfCodec) runViaStamp(id, cls, text string) {
+	var conc, re1 []vfAEnt
+	for _, p := range vfSplitTop(text, ',') {
+		conc = append(conc, vfAbsVia(p))
+	}
+	errS := ""
+	pm := vfCatch(func() {
+		v, err := ParseVia(text)
+		if err != nil {
+			errS = err.Error()
+			return
+		}
+		p0, err := v.GetParam(0)
+		if err != nil {
+			errS = err.Error()
+			return
+		}
+		p0.SetReceived("192.0.2.77")
+		if p0.HasParam("rport") {
+			p0.SetParam("rport", "4444")
+		}
+		for _, p := range vfSplitTop(v.String(), ',') {
+			re1 = append(re1, vfAbsVia(p))
+		}
+	})
+	if re1 == nil {
+		re1 = []vfAEnt{}
+	}
+	c.tr.Emit(vfM{"ev": "codec", "case": id, "cls": cls + " hdr=ViaStamped", "kind": "viastamp", "hdr": "ViaStamped", "conc": conc, "re1": re1, "re2": re1, "acc": vfM{},
+		"stamp": vfM{"ip": vfIntern.Id("192.0.2.77"), "port": vfIntern.Id("4444")}, "err": errS, "panic": pm})
+	c.n++
+}
+
 // one (text, header kind): decode with the real code, re-encode, decode and re-encode again
 func (c *vfCodec) run(id, cls, hdr, text string) {
 	var conc, re1, re2 []vfAEnt
@@ -401,6 +436,7 @@ func TestVfCodec(t *testing.T) {
 				ps = append(ps, e.Proto+fmt.Sprint(e.Port)+"("+strings.Join(e.Params, "+")+")")
 			}
 			c.run(id, "via "+strings.Join(ps, ","), "Via", c.via(&a))
+			c.runViaStamp(id, "via "+strings.Join(ps, ","), c.via(&a))
 			return
 		}
 		ks := c.kindsFor(&a)
@@ -461,6 +497,7 @@ func TestVfCodec(t *testing.T) {
 				}
 			}
 			c.run(id, "via-random", "Via", c.via(&a))
+			c.runViaStamp(id, "via-random", c.via(&a))
 			continue
 		}
 		a := vfAddrAST{Kind: "addr", Form: c.pick("nameaddr", "nameaddr", "bare"), Disp: c.pick("none", "token", "quoted", "quotedpct"),
